@@ -94,7 +94,7 @@ impl AuthData {
             "m.login.email.identity" => Self::EmailIdentity(deserialize_variant(session, data)?),
             "m.login.msisdn" => Self::Msisdn(deserialize_variant(session, data)?),
             "m.login.dummy" => Self::Dummy(deserialize_variant(session, data)?),
-            "m.registration_token" => Self::RegistrationToken(deserialize_variant(session, data)?),
+            "m.login.registration_token" => Self::RegistrationToken(deserialize_variant(session, data)?),
             "m.login.terms" => Self::Terms(deserialize_variant(session, data)?),
             _ => {
                 Self::_Custom(CustomAuthData { auth_type: auth_type.into(), session, extra: data })
